@@ -30,12 +30,20 @@ def write_files(sc, work):
     import numpy as np
     N, jmax, imax = sc["N"], sc["jmax"], sc["imax"]
     names = []
+    fnum = sc.get("frame_numbers") or list(range(len(sc["ftimes"])))
+    sign = sc.get("field_sign", 1)
     for n, (a, b) in enumerate(partition(len(sc["ftimes"]), sc["cuts"])):
-        U, V, S = formula_fields(sc["fm"], list(range(a, b)), N, jmax, imax, scalar=sc["hasscal"])
+        U, V, S = formula_fields(sc["fm"], fnum[a:b], N, jmax, imax, scalar=sc["hasscal"])
+        U, V = sign * U, sign * V
+        W = None
+        if sc.get("wfield"):
+            import numpy as _np
+            kk, jj, ii = _np.meshgrid(_np.arange(N + 1), _np.arange(jmax), _np.arange(imax), indexing="ij")
+            W = _np.stack([((f + kk + ii + 2 * jj) % 5 - 2) / 64.0 for f in fnum[a:b]])
         name = os.path.join(work, f"f_{n:02d}.nc")
         make_roms(name, imax=imax, jmax=jmax, N=N, times=sc["ftimes"][a:b], mask=np.array(sc["M"], float),
                   h=np.array(sc["H"], float), hc=0.0, dx=sc.get("dx", 128.0), dy=sc.get("dy"),
-                  U=U, V=V, S=S, pack=(2.0 ** -10 if sc["pack"] else None),
+                  U=U, V=V, S=S, W=W, pack=(2.0 ** -10 if sc["pack"] else None),
                   spack=((1.0, 0.0) if sc.get("spack") else None))
         names.append(name)
     return names
